@@ -389,6 +389,12 @@ func (ev *Evaluator) callTransform(f *Func, argv []Value) (Value, *Err) {
 			continue
 		}
 		mine := inside[reflect.ValueOf(m).Pointer()]
+		if !mine {
+			// an object the pattern selected outside the copy (via $$ or a
+			// variable): it is not part of the result and must stay untouched
+			ev.OutsideWrites++
+			continue
+		}
 		upd, err := ev.eval(f.T.Update, m, f.Env)
 		if err != nil {
 			return Undef, err
@@ -399,7 +405,9 @@ func (ev *Evaluator) callTransform(f *Func, argv []Value) (Value, *Err) {
 				return Undef, evalErr(ErrIllegalUpdate)
 			}
 			if mine {
-				for k, v := range um {
+				// members are inserted by value (a copy): the update may refer
+				// to the object itself
+				for k, v := range DeepCopy(um).(map[string]interface{}) {
 					m[k] = v
 				}
 			} else if len(um) > 0 {
